@@ -187,6 +187,9 @@ class Registry:
         if ts == "termdict":
             from .refs import TTermDict
             return TTermDict(self)
+        if ts == "frame":
+            from .frames import TFrame
+            return TFrame()
         if ts == "series":
             from .pandas_m import TSeries
             return TSeries()
